@@ -1,5 +1,6 @@
 // c07 drives the proportion plugin's reclaim gate (CanReclaimResources, Reclaimable,
-// FitsReclaimStrategy) on generated queue trees (correspondence check for property C07).
+// FitsReclaimStrategy) on generated queue trees and the real allocate + reclaim actions on
+// generated sessions with several reclaimers (correspondence check for property C07).
 package main
 
 import (
